@@ -67,10 +67,20 @@ class _HarnessEnv:
         self.logger = logging.getLogger("pydra")
         self.level = self.logger.level
         self.logger.setLevel(logging.CRITICAL + 1)
+        try:  # a SIGTERM must still run the `finally` blocks that remove the temp dirs
+            import signal
+
+            self.sigterm = signal.signal(signal.SIGTERM, lambda *_: (_ for _ in ()).throw(SystemExit(143)))
+        except ValueError:  # not in the main thread
+            self.sigterm = None
         return self
 
     def __exit__(self, *exc):
         self.logger.setLevel(self.level)
+        if self.sigterm is not None:
+            import signal
+
+            signal.signal(signal.SIGTERM, self.sigterm)
         shutil.rmtree(self.hash_cache, ignore_errors=True)
         for k, v in self.old.items():
             if v is None:
